@@ -9,7 +9,8 @@
    the very numbers the operators receive.  The binary64 instance of the same functions (Math/FloatModel.v)
    is what the correspondence stage compares bit for bit with CPython. *)
 From Coq Require Import List ZArith Bool QArith Qcanon.
-From RxVerif Require Import Math.Exact Math.ExactProofs Math.FloatModel Math.C12Corr.
+From Coq Require Import Reals.
+From RxVerif Require Import Math.Exact Math.ExactProofs Math.FloatModel Math.C12Corr Math.SumErrorProofs.
 Import ListNotations.
 Open Scope Qc_scope.
 
@@ -127,11 +128,31 @@ Theorem C12_exact_last_running_is_reduce : forall (A : arith) (xs : list (T A)),
 Proof. exact last_is_reduce_all. Qed.
 Print Assumptions C12_exact_last_running_is_reduce.
 
+(* (e) floating-point error bound, binary64, for `sum` only (recursive summation; Higham, Accuracy and Stability
+       of Numerical Algorithms, (4.4) with (1+u)^n - 1 in place of gamma_(n-1)): for the function the
+       correspondence evaluates, on float items, if no running sum overflows then
+            | fl_sum - sum x_i |  <=  ((1 + u)^n - 1) * sum |x_i|,        u = u53 = 2^-53.
+       FR x is the real number denoted by the float x (Flocq: B2R (Prim2B x)).  This theorem depends on the
+       standard library's specification of the primitive floats (FloatAxioms) and on the axioms of Reals. *)
+Theorem C12_float_sum_error_bound : forall (h : hints) (l : list Coq.Floats.PrimFloat.float),
+  Forall (fun x => Coq.Floats.PrimFloat.is_finite x = true) l ->
+  Forall (fun v => exists s, v = NF s /\ Coq.Floats.PrimFloat.is_finite s = true) (sum_run (FA h) false (map NF l)) ->
+  exists s, sum_run (FA h) true (map NF l) = [NF s]
+            /\ (Rabs (FR s - sumR (map FR l))
+                <= ((1 + u53) ^ length l - 1) * sumR (map (fun x => Rabs (FR x)) l))%R.
+Proof. exact float_sum_error. Qed.
+Print Assumptions C12_float_sum_error_bound.
+
+Theorem C12_float_unit_roundoff : u53 = (/ 2 ^ 53)%R.
+Proof. exact u53_value. Qed.
+Print Assumptions C12_float_unit_roundoff.
+
 (* FULL STATEMENT OF C12 (NOT PROVED): for the binary64 instance FA h, every finite float/int sequence xs of
    length n <= 10^4 without overflow, and every aggregate: the emitted value v_hat and the exact statistic v
    (as computed by QA on the same numbers) satisfy |v_hat - v| <= c * n * 2^-53 * (kappa + 1) * |v| + tiny, kappa the
-   condition number of the data.  What is proved is the exact-arithmetic half, collected here; the binary64
-   half is tied bit-exactly to the code and its error is measured against exact rationals by the oracle. *)
+   condition number of the data.  What is proved is the exact-arithmetic half, collected here, and the binary64
+   bound for `sum` above; for mean, Welford variance/stddev and the two-pass formal variance the binary64 half
+   is tied bit-exactly to the code and its error is measured against exact rationals by the oracle. *)
 Theorem C12_partial : forall (sq : Qc -> Qc) (xs : list Qc),
   sum_run (QA sq) true xs = [qsum xs]
   /\ variance_run (QA sq) true xs = [sample_var xs]
